@@ -688,9 +688,14 @@ static const std::vector<std::string> &optPlanners()
     return v;
 }
 
+static long g_c04MainCases = 0;
 static void c04Planner(Sink &sink, const Args &a, long c, long idx)
 {
     const auto &OP = optPlanners();
+    // goal-bookkeeping block (cases after the main block): every case has several goal states AND clears the solution paths
+    // between the continued solves, with a reduced budget
+    const bool gbBlock = idx >= g_c04MainCases;
+    if (gbBlock) idx = (idx - g_c04MainCases) + 7918 * OP.size() * 5;  // worlds of their own
     const PInfo &pi = *findPlanner(OP[idx % OP.size()]);
     sink.subject(pi.name);
     long rest = idx / OP.size();
@@ -712,14 +717,32 @@ static void c04Planner(Sink &sink, const Args &a, long c, long idx)
     w->rangeMode = 0;
     Rng rng(caseSeed(a, c));
     OracleCtx ctx{sink, *w, pi, "C04", ""};
+    // a third of the cases have several goal states at different distances (a planner then keeps one cost per goal), a quarter
+    // clear the problem definition's solution paths between the continued solves (the planner re-registers its incumbents)
+    const bool multiGoal = rng.ui(3) == 1 || gbBlock;
+    const bool clearBetween = rng.ui(4) == 0 || gbBlock;
+    if (gbBlock) sink.count("c04_goal_bookkeeping_block_cases");
+    if (multiGoal)
+    {
+        g_multiGoalProb = 1.0;
+        g_lastSwap = true;
+        newQuery(*w, rng);
+        g_multiGoalProb = 0.4;
+        sink.count("c04_cases_with_several_goal_states");
+    }
+    if (clearBetween) sink.count("c04_cases_clearing_solution_paths_between_solves");
     auto pdef = makePdef(*w, false);
     auto opt = makeObjective(objKind, *w);
     // a third of the cases use a finite threshold
     bool finiteThr = rng.ui(3) == 0;
     ob::ScopedState<> s0(w->space), g0(w->space);
     w->toState(w->starts[0], s0.get());
-    w->toState(w->goals[0], g0.get());
-    double straight = w->space->distance(s0.get(), g0.get());
+    double straight = std::numeric_limits<double>::infinity();
+    for (auto &g : w->goals)
+    {
+        w->toState(g, g0.get());
+        straight = std::min(straight, w->space->distance(s0.get(), g0.get()));
+    }
     if (finiteThr)
     {
         double thr = objKind == 0 ? straight * rng.uni(1.05, 1.6) : objKind == 3 ? rng.uni(0.05, 0.6) : objKind == 2 ? rng.uni(0.5, 4.0) : straight * rng.uni(1.2, 3.0);
@@ -732,6 +755,12 @@ static void c04Planner(Sink &sink, const Args &a, long c, long idx)
     try
     {
         planner = makePlanner(pi, *w, rng);
+        // (informed-tree planners use only as many goal states as they are told to: mostly more than the default of one here)
+        if (multiGoal && rng.coin(0.9))
+        {
+            if (auto *q = dynamic_cast<og::AITstar *>(planner.get())) q->setMaxNumberOfGoals(2 + rng.ui(9));
+            if (auto *q = dynamic_cast<og::EITstar *>(planner.get())) q->setMaxNumberOfGoals(2 + rng.ui(9));
+        }
         // every other world runs with randomly flipped boolean planner parameters (delayed collision checking, pruning,
         // rejection variants, k-nearest, ...): the non-default code paths
         if (widx % 2 == 1) flipped = flipBoolParams(planner, rng, 0.3);
@@ -755,7 +784,7 @@ static void c04Planner(Sink &sink, const Args &a, long c, long idx)
     {
         std::set<const ob::Path *> seen;
         for (auto &sol : pdef->getSolutions()) seen.insert(sol.path_.get());
-        EvalPTC e((long)(pi.budget * (0.2 + 0.15 * round)), false, pdef);
+        EvalPTC e((long)(pi.budget * (0.2 + 0.15 * round) * (gbBlock ? 0.6 : 1.0)), false, pdef);
         try
         {
             planner->solve(e.ptc);
@@ -822,6 +851,14 @@ static void c04Planner(Sink &sink, const Args &a, long c, long idx)
             bestStored = b;
             haveBest = true;
             sink.count("c04_monotone_checks");
+        }
+        if (clearBetween && round + 1 < rounds && rng.coin(0.6))
+        {
+            // what the planner registers afterwards is checked like any other solution; the best cost is not compared across
+            // the clear (a planner need not register anything until it improves)
+            pdef->clearSolutionPaths();
+            haveBest = false;
+            sink.count("c04_solution_paths_cleared");
         }
     }
     sink.noteCase(hmix(caseSeed(a, c, 2), hashStr(pi.name) + objKind), checked > 0);
@@ -1058,7 +1095,8 @@ int main(int argc, char **argv)
     else if (a.prop == "C03") total = NP * ((a.thorough() ? 33 * 3 : 9 * 2) + (a.thorough() ? 60 : 12)), fn = c03;
     else if (a.prop == "C04")
     {
-        g_c04PlannerCases = (long)(optPlanners().size() * 5 * (a.thorough() ? 12 : 2) * a.scale);
+        g_c04MainCases = (long)(optPlanners().size() * 5 * (a.thorough() ? 12 : 2) * a.scale);
+        g_c04PlannerCases = g_c04MainCases + (long)(optPlanners().size() * (a.thorough() ? 30 : 5) * a.scale);
         total = g_c04PlannerCases + (a.thorough() ? 20000 : 3000);
         fn = c04;
     }
